@@ -35,6 +35,19 @@ PROPS = {
         "quick": {"checks": 12000, "shards": 16},
         "thorough": {"checks": 250000, "shards": 16},
     },
+    "C16": {
+        "engine": "E1 bufmachine",
+        "level_text": "Generated io.Reader/io.Writer behaviours (every behaviour the io contracts allow: zero-byte reads, data together with an error, transient errors, short writes) against generated adapter call sequences, compared with a source/sink stream model; failures shrink to a replayable script.",
+        "level_note": "trusted: the scripted reader/writer stay inside the io.Reader/io.Writer contracts (never more than len(p), error on short write); the model is the position-keyed source stream",
+        "design_ref": "DESIGN.md section 5 (C16)",
+        "test": "TestVerifC16",
+        "variant": "plain",
+        "technique": "model-based property testing with scripted io.Reader/io.Writer fault injection (short/zero reads, data+error, short writes) against a stream model",
+        "rule": "case = scripted io.Reader (1-8 steps of 0..12000 bytes with nil/io.EOF/custom error, larger steps split by the caller's buffer) x 1-10 zcReader calls; or scripted io.Writer (0-6 writes accepting all/some/none, optional error) x 1-12 zcWriter calls; or NewIOReader/NewIOWriter read/write sequences over a LinkBuffer; non-trivial = the script contains a 0-byte read, a data+error read or a short write; distinct = whole case",
+        "assumptions": ["sampled search; sizes up to 12000 bytes; the adapters' 16-round fill limit is exercised only through finite scripts"],
+        "quick": {"checks": 6000, "shards": 16},
+        "thorough": {"checks": 200000, "shards": 16},
+    },
     "C03": {
         "engine": "E1 bufmachine",
         "level_text": 'Every pool Malloc/Free of every generated history is audited by a ledger; caller memory is snapshotted; sampled search over histories.',
@@ -117,5 +130,5 @@ ENGINES = [
 # properties not claimed yet (kept current while the framework is being built)
 NOT_APPLICABLE = [
     {"property_id": p, "reason": "check under construction in this session; not claimed until it has been run clean on the unchanged tree"}
-    for p in [ "C11", "C13", "C14", "C15", "C16", "C18", "C19"]
+    for p in [ "C11", "C13", "C14", "C15", "C18", "C19"]
 ]
